@@ -3,13 +3,44 @@
 import json, os, subprocess
 VERIF = os.path.dirname(os.path.dirname(os.path.abspath(__file__)))
 
+TECH = "Coq proof over a Gallina model + differential correspondence (extracted model vs implementation)"
 CHECKS = {
+ "C02": dict(
+   text="Theorems (Props/C02.v): for every accepted expression and every environment agreeing with the declarations, eval yields exactly the denotation ExprSpec.den (plain arithmetic mod 2^width on unbounded numbers; unsigned comparisons; shifts >= 128 give 0; ~ and - within the operand width; slices; concat order; in-set by value; mux = first non-zero arm reduced to the shared width) at the checker's width, in which it fits; assignment truncates. Tie: operator x width x boundary-value grid, mux/unsized combinations and random nestings through the hook check_and_eval vs the extracted model, in the overflow-checking and the wrapping build.",
+   note="Model of ast.rs hand-written (Expr.v); spans and message wording not modelled; tie by differential correspondence; Rust u128/u8 arithmetic modelled on N with explicit wrap.", ref="4 C02"),
+ "C03": dict(
+   text="Theorems (Props/C03.v): initial_state puts the defaults on bank outputs and 0 on stall/bubble; within a cycle a wire changes only through the action writing it; the clock edge is the bubble/stall/latch recurrence for every bank at once, banks independent, nothing else changes. Tie: random (stall,bubble) histories over 1-3 banks, widths 1..128, per-cycle values vs the model, plus the recurrence evaluated on the implementation's own values.",
+   note="Machine.v mirrors initial_state/process_register_banks; HashMap iteration order of `defaults` is a list in arbitrary order (NoDup keys) in the theorem; tie by correspondence.", ref="4 C03"),
+ "C04": dict(
+   text="Theorems (Props/C04.v): read port delivers rf_read of the current registers and changes nothing else; write port = rf_write (never register 15); register-file laws; M wins over E; register 15 stays 0; no non-effect action changes the registers; E-before-M order proved on the regenerated built-in table (Generated.v). Tie: random port histories with forced dstE=dstM / REG_NONE / src=dst collisions, all 16 registers read back through a hook every cycle vs model and vs an abstract register file in python.",
+   note="position of the write ports after all reads in the schedule is tied by the action lists fetched in C01 and by per-cycle correspondence; Build model not yet proved.", ref="4 C04"),
+ "C05": dict(
+   text="Theorems (Props/C05.v): sorted-list memory obeys map laws and keeps its invariant; read = little-endian sum of the n bytes at a.. (wrapping at 2^64), absent bytes 0; write stores exactly the n low bytes; read-after-write; any write history = abstract byte map with latest write winning; value fits the port; byte i of a read is the byte at a+i. Tie: (addr,data,re,we) histories near 0, inside the image, unaligned, overlapping, at 2^64-1; memory map read back through a hook each cycle vs model and vs an abstract byte map in python; direct Memory::read/write sequences with 0..16 bytes.",
+   note="BTreeMap modelled as strictly sorted association list; cycle-level placement of the write after all reads tied by correspondence (C01 engine).", ref="4 C05"),
+ "C06": dict(
+   text="Theorems (Props/C06.v): step adds one cycle; run stops in the first done state, having executed exactly k cycles none of which was done; fuel = remaining budget always suffices (termination within timeout, none with timeout 0); report = function of (last Stat, cycles, timeout) with halt > timeout > error; dump header/footer/'Cycles run'/'Error code' selected by the report kind and printing the true count; default timeout and status names proved equal to the regenerated tables. Tie: every Stat sequence of length <=3 (thorough 4) over all eight values x timeouts 0..5, random longer ones, through RunningProgram::run under several option sets vs the model and vs the property's own stopping rule in python.",
+   note="u32 cycle counter modelled as N (bounded by the timeout theorem).", ref="4 C06"),
+ "C07": dict(
+   text="Theorems (Props/C07.v): type soundness - an accepted expression evaluates, in every environment agreeing with the declarations, to a value of exactly the static width that fits it, or to the explicit division-by-zero report; static and dynamic width disciplines agree; stored values fit the declared width. Tie: accepted programs biased to the sites the property names, on random images, both arithmetic builds: no panic, no run-time error but division by zero, every value of every cycle fits its width, all equal to the model.",
+   note="step-level safety (unwrap of bank/wire lookups) is tied by correspondence; the theorem proved so far is expression-level soundness.", ref="4 C07"),
+ "C08": dict(
+   text="Theorems (Props/C08.v): check f G C e = Ok w <-> has_width f G C e w for the declarative rule system written from the property's sentences (ExprRules.v); widths unique; a rejection carries a diagnostic; default feature set proved on the regenerated table. Tie: operator x width-pair grid, random nestings, one-fault nestings: verdict, width and diagnostic kind vs the model; program level: the expression assigned to a plain wire, register input, stall/bubble and built-in inputs.",
+   note="declared-width and slice-bound limits (<=128) live in the grammar and are tied by correspondence only.", ref="4 C08"),
+ "C10": dict(
+   text="Theorems (Props/C10.v), for EVERY presentation (hash iteration order) of a well-formed graph: toposort answers a cycle iff one exists; a reported cycle is a real cycle; otherwise the answer is a linear extension; find_cycle's panic is unreachable; Kahn's counters never underflow and its fuel suffices. Tie: hook toposort_trace on every digraph with self-loops on <=4 nodes under fresh hash seeds (thorough: + 400k on 5 nodes, 20k structured larger ones): detection vs an independent python DFS, answers validated by the extracted checkers, and equality with the model run on the very iteration orders the implementation saw; HCL level: random wire graphs through every built-in path and non-path, printed chain verified edge by edge.",
+   note="graph construction from assignments (which edges exist) tied at HCL level by correspondence; HashSet semantics (each element once, clone keeps order) trusted / checked by the hook.", ref="4 C10"),
+ "C17": dict(
+   text="Theorems (Props/C17.v): acceptance is monotone in the option set and the width is unchanged; an expression accepted under two sets has the same value under both; acceptance under any set = derivability in the rule system where each option guards exactly its own premise. Tie: 7 (thorough: all 32) separate builds of the implementation: separating expressions per option judged on the implementation alone, random and one-fault expressions vs the model with the same option record, programs simulated under every set with traces compared.",
+   note="cfg! plumbing tied by building each feature set.", ref="4 C17"),
+ "C18": dict(
+   text="Theorems (Props/C18.v): exec_actions, step and run reach the same state under any two option sets (same timeout); -t only drops the bank lines from the dump. Tie: all 32 subsets of -q -d -t --ungroup-debug-wires --trace-assignments through RunningProgram::run: text equal to the model's, final state equal across subsets; step-by-step -d runs with every table row compared with that cycle's wire value, no duplicates, no constants, every assigned wire present.",
+   note="option-guarded writeln! calls are mirrored by hand in Machine.exec_action; std formatting modelled by Base.hex/dec/pad.", ref="4 C18"),
  "C20": dict(
-   text="Theorems (Props/C20.v): every row of the CS:APP instruction table, with symbolic registers, 64-bit immediate and trailing memory, disassembles to the CS:APP mnemonic/operands/length; length depends on the opcode nibble only; opcode > 0xB is '<invalid>' alone; trace bytes are bytes 0..len-1 in memory order, each printed as the two hex digits of that byte. Tie: exhaustive differential of the hook `disassemble` against the extracted model over all 65536 first-two-byte values x immediates.",
-   note="Model of y86_disasm.rs hand-written (Disasm.v); tie by exhaustive correspondence on the first two bytes; std formatting ({:x}) modelled by Base.hex.",
-   technique="Coq proof over a Gallina model + exhaustive differential correspondence (extracted model vs implementation)",
-   ref="4 C20"),
+   text="Theorems (Props/C20.v): every row of the CS:APP instruction table, with symbolic registers, 64-bit immediate and trailing memory, disassembles to the CS:APP mnemonic/operands/length; length depends on the opcode nibble only; opcode > 0xB is '<invalid>' alone; trace bytes are bytes 0..len-1 in memory order, each printed as the two hex digits of that byte. Tie: exhaustive differential of the hook `disassemble` against the extracted model over all 65536 first-two-byte values x immediates; trace lines compared in every simulation check.",
+   note="Model of y86_disasm.rs hand-written (Disasm.v); std formatting ({:x}) modelled by Base.hex.", ref="4 C20"),
 }
+for _c in CHECKS.values():
+    _c.setdefault("technique", TECH)
 
 NA_REASON = "check not built yet in this round (work in progress; see DESIGN.md section 9)"
 
